@@ -70,7 +70,7 @@ func genId(r *rng) uuid.UUID {
 
 func runC10(a *args) error {
 	r := newRng(a.seed)
-	st := newStats("(id, m) pairs: every m in 1..1024 with random and boundary ids (all-FF, zero, max halves), random m up to 2^64-1 incl. 2^63 and 0 (panic); plus holder observations: ids written through Insert/Update/Remove/BatchInsert/BatchUpdate/BatchRemove via every entry node of simulated clusters, holder partition found by scanning all partitions; non-trivial = m >= 2; distinct by (id, m, kind)")
+	st := newStats("(id, m) pairs: every m in 1..1024 with random and boundary ids (all-FF, zero, max halves), random m up to 2^64-1 incl. 2^63 and 0 (panic); plus holder observations: ids written through Insert/Update/Remove/BatchInsert/BatchUpdate/BatchRemove via every entry node of simulated clusters, holder partition found by scanning all partitions, incl. batches of 10..22 ids spanning all partitions (insert, update, remove of the same batch); non-trivial = m >= 2; distinct by (id, m, kind)")
 	var cases []routeCase
 	if a.replay != "" {
 		var c routeCase
@@ -268,6 +268,67 @@ func routeHolderCases(r *rng, st *stats) ([]routeCase, error) {
 		for h := range holders {
 			v := uint64(h)
 			out = append(out, routeCase{Id: id.Bytes(), M: uint64(p), Obs: &v, Kind: "holder", Path: path})
+		}
+	}
+	// batches spanning several partitions: every item of one call must reach its own owner (grouping by owner)
+	holdersOf := func(id uuid.UUID) map[int]bool {
+		holders := map[int]bool{}
+		for i, nodesOf := range placement {
+			for _, nid := range nodesOf {
+				if _, e := c.nodes[nid].datasets[dsid].VerifIndex(i).Get(id); e == nil {
+					holders[i] = true
+				}
+			}
+		}
+		return holders
+	}
+	for round := 0; round < 2; round++ {
+		entry := c.nodes[nodes[r.intn(3)]]
+		ds := entry.datasets[dsid]
+		var batch []*pb.BatchItem
+		var ids []uuid.UUID
+		for k := 0; k < 6+2*p; k++ {
+			id := uuidFrom(r)
+			ids = append(ids, id)
+			batch = append(batch, &pb.BatchItem{Id: id.Bytes(), Value: []float32{float32(k), 2}})
+		}
+		for _, path := range []string{"BatchInsert", "BatchUpdate", "BatchRemove"} {
+			ctx, cancel := context.WithTimeout(context.Background(), 5*time.Second)
+			var errs map[uuid.UUID]error
+			var err error
+			switch path {
+			case "BatchInsert":
+				errs, err = ds.BatchInsert(ctx, batch)
+			case "BatchUpdate":
+				errs, err = ds.BatchUpdate(ctx, batch)
+			case "BatchRemove":
+				errs, err = ds.BatchRemove(ctx, batch)
+			}
+			cancel()
+			st.count("holder-multi:" + path)
+			if err != nil || len(errs) > 0 {
+				st.ImplFailures = append(st.ImplFailures, implFailure{Case: -1, What: fmt.Sprintf("%s of %d fresh ids spanning %d partitions through node %d: err=%v, %d item errors %v", path, len(ids), p, entry.id, err, len(errs), errs),
+					Key: "route-path-disagrees:" + path + ":multi", Input: map[string]interface{}{"path": path, "partitions": p, "items": len(ids)}})
+				break
+			}
+			time.Sleep(5 * time.Millisecond)
+			for _, id := range ids {
+				holders := holdersOf(id)
+				owner := ds.VerifOwnerIndex(id)
+				ok := len(holders) == 1 && holders[owner]
+				if path == "BatchRemove" {
+					ok = len(holders) == 0
+				}
+				if !ok {
+					st.ImplFailures = append(st.ImplFailures, implFailure{Case: -1, What: fmt.Sprintf("after a %s of %d ids, id %s (owner partition %d) is held by partitions %v", path, len(ids), id, owner, holders),
+						Key: "route-not-exactly-one:" + path + ":multi", Input: map[string]interface{}{"id": id.String(), "path": path, "partitions": p}})
+					break
+				}
+				if path == "BatchInsert" {
+					v := uint64(owner)
+					out = append(out, routeCase{Id: id.Bytes(), M: uint64(p), Obs: &v, Kind: "holder", Path: path})
+				}
+			}
 		}
 	}
 	return out, nil
